@@ -25,6 +25,8 @@ SepsT == {46, 61}
 AsgsQ == {0, 61}
 ElemsQ == {<<>>, <<97>>, <<98, 97>>}
 NoStrs == {}
+Ends0 == {0}
+EndsQ == {0, 61}
 Call(o) == [a |-> o.a, arg |-> o.arg]
 GenInit == Init /\ hist = <<Call(obs)>>
 GenSpecC == GenInit /\ [][NextC /\ hist' = Append(hist, Call(obs'))]_<<vars, hist>>
